@@ -10,7 +10,7 @@ use crate::instruction::{
     Convert, Declaration, DefGateSequence, Delay, Exchange, Fence, FrameDefinition, GateDefinition,
     GateSpecification, GateType, Include, Instruction, Jump, JumpUnless, JumpWhen, Label, Load,
     MeasureCalibrationDefinition, MeasureCalibrationIdentifier, Measurement, Move, PauliSum,
-    Pragma, PragmaArgument, Pulse, Qubit, RawCapture, Reset, SetFrequency, SetPhase, SetScale,
+    Pragma, PragmaArgument, Pulse, RawCapture, Reset, SetFrequency, SetPhase, SetScale,
     ShiftFrequency, ShiftPhase, Store, SwapPhases, Target, UnaryLogic, UnaryOperator,
     UnresolvedCallArgument, ValidationError, Waveform, WaveformDefinition,
 };
@@ -18,7 +18,7 @@ use crate::instruction::{
 use crate::parser::common::parse_sequence_elements;
 use crate::parser::instruction::parse_block;
 use crate::parser::InternalParserResult;
-use crate::{real, token};
+use crate::token;
 
 use super::common::{parse_memory_reference_with_brackets, parse_variable_qubit};
 use super::{
@@ -373,19 +373,18 @@ pub(crate) fn parse_defcircuit<'a>(
 
 /// Parse the contents of a `DELAY` instruction.
 pub(crate) fn parse_delay<'a>(input: ParserInput<'a>) -> InternalParserResult<'a, Instruction> {
-    let (input, mut qubits) = many0(parse_qubit)(input)?;
-    let (input, frame_names) = many0(token!(String(v)))(input)?;
-    // If there is no intervening frame name and the delay is an integer, it will have been parsed
-    // as a qubit. We check for and correct that condition here.
-    let (input, duration) = parse_expression(input).or_else(|e| {
-        if let Some(Qubit::Fixed(index)) = qubits.last() {
-            let duration = *index as f64;
-            qubits.pop();
-            Ok((input, Expression::Number(real!(duration))))
-        } else {
-            Err(e)
+    let (_, mut qubits) = many0(parse_qubit)(input)?;
+    // If there is no intervening frame name and the duration begins with an integer, a variable or
+    // an identifier (`1`, `%t`, `theta[0]`, `pi/2`), that token will have been parsed as a qubit.
+    // We check for and correct that condition here: every qubit is a single token, so as long as
+    // the qubits are not followed by frame names and an expression, we give the last one back.
+    let mut result = parse_delay_frame_names_and_duration(&input[qubits.len()..]);
+    while result.is_err() && qubits.pop().is_some() {
+        if let Ok(parsed) = parse_delay_frame_names_and_duration(&input[qubits.len()..]) {
+            result = Ok(parsed);
         }
-    })?;
+    }
+    let (input, (frame_names, duration)) = result?;
 
     Ok((
         input,
@@ -395,6 +394,12 @@ pub(crate) fn parse_delay<'a>(input: ParserInput<'a>) -> InternalParserResult<'a
             qubits,
         }),
     ))
+}
+
+fn parse_delay_frame_names_and_duration<'a>(
+    input: ParserInput<'a>,
+) -> InternalParserResult<'a, (Vec<String>, Expression)> {
+    tuple((many0(token!(String(v))), parse_expression))(input)
 }
 
 /// Parse the contents of an `EXCHANGE` instruction.
